@@ -140,6 +140,11 @@ def run_sim_case(spec, prop, extra_listeners=(), post=None, **run_kwargs):
     mons = {name: MONITORS[name](spec) for name in ["sanitizer"] + list(spec.get("monitors", []))}
     listeners = list(mons.values()) + list(extra_listeners)
     rr = sim.run_sim(spec, listeners, **run_kwargs)
+    if rr.refused and spec.get("history") in ("used_moved", "used_shifted") and "covers no boundary edge" in str(rr.refused):
+        # the very same Device was accepted (and solved) before it was moved rigidly: a rigid move loses no terminal
+        return {"violations": [{"kind": "device_refused_after_rigid_move", "mechanism": "device_refused_after_rigid_move",
+                                "detail": {"history": spec["history"], "shift_frac": spec.get("shift_frac"), "reason": str(rr.refused)}}],
+                "counters": {"refused_after_move": 1}, "classes": ["refused_after_move"], "nontrivial": True}
     if rr.refused:
         return {"violations": [], "counters": {"refused_mesh": 1}, "classes": ["refused"], "nontrivial": False, "refused_reason": str(rr.refused)}
     V, C, W = [], {}, {}
@@ -208,6 +213,7 @@ def apply_history(spec, device):
     """Things that happened to the Device object BEFORE the monitored run (the monitors only watch the run that follows):
     'used' = solved once with other options (terminal pinning toggled, zero field, screening toggled off);
     'used_moved' = the same, then moved in place and back (coordinates differ from the originals by rounding only);
+    'used_shifted' = the same, then moved in place and left there;
     'layer_edited' = the earlier run was made with other layer values (london_lambda, thickness, gamma), edited in place."""
     import copy
 
@@ -248,6 +254,12 @@ def apply_history(spec, device):
         size = float(np.ptp(np.asarray(device.film.points), axis=0).max())
         device.translate(0.31 * size, -0.17 * size, inplace=True)
         device.translate(-0.31 * size, 0.17 * size, inplace=True)
+    if spec["history"] == "used_shifted":
+        # ... and moved in place for good (by an amount comparable with the width of a contact): the monitored run is made at
+        # the new place - mesh, outlines and terminals have all moved together
+        size = float(np.ptp(np.asarray(device.film.points), axis=0).max())
+        fr = float(spec.get("shift_frac", 0.23))
+        device.translate(fr * size, 0.8 * fr * size, inplace=True)
     return None
 
 
